@@ -97,6 +97,17 @@ CHECKS = {
         design_ref="DESIGN.md 5 C36",
         note=NOTE_COMMON + " exp() is evaluated by numpy in the harness (profile/norm deviations, tolerance 2e-6).",
     ),
+    "C13": dict(
+        text=("TLC enumerates PolarImpl (limit -> bin-edge index per axis with the axis' own offset and sampling, slicing) for "
+              "radial bins <= 3 (thorough 4), azimuthal bins <= 4 (6), 4 radial samplings, 2 radial and 2 azimuthal offsets and "
+              "every pair of edge-aligned limits (1.3e4 cases, thorough ~1e5) and checks the selected bin set against Polar.tla; "
+              "the cases run on the real PolarMeasurements.integrate/integrate_radial (eager and lazy) with the one-hot ensemble "
+              "over the bins, so the result decodes exactly to the summed bin set; PolarTrace.tla decides 'bins inside the "
+              "limits', 'no limits = all bins' and that edge-aligned partitions of either axis are disjoint and cover."),
+        technique="TLA+ model of the limit-to-bin algebra (TLC, exact rationals) + TLC-enumerated cases on the real code with one-hot decoding + TLC trace validation",
+        design_ref="DESIGN.md 5 C13",
+        note=NOTE_COMMON + " Azimuthal quantities are rationals in units of pi; the harness multiplies by math.pi when calling.",
+    ),
 }
 
 NOT_APPLICABLE = {
